@@ -149,11 +149,10 @@ impl PlFold for Flattener {
                     kind => {
                         let input = self.fold_expr(*t.input)?;
 
-                        // An aggregate outside of any group collapses the relation: whatever order was
-                        // in effect in front of it says nothing about its output, and its sort columns
-                        // do not exist any more.
-                        ends_sort = self.partition.is_none()
-                            && matches!(kind, TransformKind::Aggregate { .. });
+                        // An aggregate collapses the relation (inside a group: every partition) to one
+                        // row: whatever order was in effect in front of it says nothing about its
+                        // output, and its sort columns do not exist any more.
+                        ends_sort = matches!(kind, TransformKind::Aggregate { .. });
 
                         // Relational arguments (the `with` of join, the bottom of append, the body
                         // of loop) are pipelines of their own: the sort, the partition and the
